@@ -219,6 +219,19 @@ fn tail(e: &SpannedExpr) -> Tail {
     }
 }
 
+/// the leftmost token of the printed form is a prefix minus
+fn starts_neg(e: &SpannedExpr) -> bool {
+    match &e.node {
+        Expr::UnaryOp { op: UnaryOp::Negate, .. } => true,
+        Expr::BinaryOp { op, left, .. } => !new_left(op, left) && starts_neg(left),
+        Expr::Call { func, .. } => !new_post(func) && starts_neg(func),
+        Expr::Access { expr, .. } | Expr::DotAccess { expr, .. } | Expr::PostfixOp { expr, .. } => {
+            !new_post(expr) && starts_neg(expr)
+        }
+        _ => false,
+    }
+}
+
 fn has_both_quotes_or_escape(s: &str) -> bool {
     s.contains('"') || s.contains('\\')
 }
@@ -265,7 +278,10 @@ fn classes(e: &SpannedExpr, c: &mut Cls) {
             classes(else_expr, c);
         }
         Expr::DoBlock { statements, return_expr } => {
-            for s in statements {
+            for (i, s) in statements.iter().enumerate() {
+                if i > 0 && starts_neg(&s.node) {
+                    c.add("do-minus");
+                }
                 classes(&s.node, c);
             }
             classes(&return_expr.node, c);
@@ -301,8 +317,7 @@ fn classes(e: &SpannedExpr, c: &mut Cls) {
             }
             classes(expr, c);
         }
-        Expr::UnaryOp { expr, op } => {
-            let _ = matches!(op, UnaryOp::Negate);
+        Expr::UnaryOp { expr, .. } => {
             if new_unary(expr) {
                 c.add("unary-operand");
             }
